@@ -1377,7 +1377,8 @@ func (r *fhRun) run(only map[int]bool) {
 			// (`first=force`: the open finding C05-force-records-no-fingerprint) a --force run
 			ps := r.d.Steps[k-1]
 			if ps.Kind == "inv" && (ps.Mode == "run" || ps.Mode == "force") && ps.Task%len(r.d.Tasks) == ti && r.obsExit[k-1] == "ok" &&
-				(r.skips[k-1] || len(r.rans[k-1]) == len(t.Cmds)) && !(method == "timestamp" && newest > ps.Now) {
+				(r.skips[k-1] || len(r.rans[k-1]) == len(t.Cmds)) && !(method == "timestamp" && newest > ps.Now) &&
+				!ps.NoG && !s.NoG { // (the environment variable G is an input of the `${G:?}…` entries: both steps see it set)
 				r.viol = append(r.viol, fhViol{"c05", k, ti, facts("not-idempotent") + " first=" + ps.Mode})
 			}
 		}
